@@ -92,6 +92,28 @@ def gen_case(r: random.Random, compiled: list[dict]) -> dict:
     return {"sm": sm, "f": f}
 
 
+def gen_history(r: random.Random, compiled: list[dict]) -> dict:
+    """an operation sequence on ONE SourceMap object (the property speaks about maps, not about fresh objects)"""
+    c = gen_case(r, compiled)
+    sm = c["sm"]
+    steps: list = []
+    keys = sorted({k for k, _ in sm["map"]} | {k for k, _ in sm["macros"]})
+    for _ in range(r.randint(2, 7)):
+        op = r.choice(["ser", "ser", "pretty", "str", "rewrite", "rewrite", "reread", "eq"])
+        if op == "rewrite":
+            dom = [k for k in keys if r.random() < 0.85]
+            if r.random() < 0.6:
+                base = r.randint(0, 4)
+                new = [base + r.choice([1, 2]) * i for i in range(len(dom))]
+            else:
+                new = r.sample(range(0, 3 * len(dom) + 5), len(dom))
+            steps.append(["rewrite", [[k, v] for k, v in zip(dom, new)]])
+            keys = sorted(set(new))
+        else:
+            steps.append([op])
+    return {"sm": sm, "steps": steps}
+
+
 def compiled_maps() -> list[dict]:
     """source maps produced by the real compiler / decompilers (fixtures of the repo + tiny programs)"""
     import sys
@@ -185,10 +207,16 @@ def run(run: core.Run) -> int:
     pool = core.Pool(jobs)
     chunk = 50
     chunks = [cases[i:i + chunk] for i in range(0, len(cases), chunk)]
+    hists = [gen_history(run.rng, compiled) for _ in range(n // 3)]
+    hchunks = [hists[i:i + chunk] for i in range(0, len(hists), chunk)]
     try:
         outs = pool.map("harness.impl_sm:run_cases", chunks, timeout=120)
+        houts = pool.map("harness.impl_sm:run_histories", hchunks, timeout=120)
     finally:
         pool.close()
+    hres: list[dict] = []
+    for ch, o in zip(hchunks, houts):
+        hres += o if isinstance(o, list) else [{"exc": "worker: " + json.dumps(o)[:200]} for _ in ch]
     results: list[dict] = []
     for ch, o in zip(chunks, outs):
         if isinstance(o, list):
@@ -210,6 +238,18 @@ def run(run: core.Run) -> int:
         for kind, what in oracle(c, r):
             n_viol += 1
             run.violation(kind, what, {"case": c, "impl": r})
+    # operation sequences on one object: every step must act on the content the object has now
+    hstats = {"histories": len(hists), "steps": sum(len(h["steps"]) for h in hists), "rewrites": sum(1 for h in hists for st in h["steps"] if st[0] == "rewrite")}
+    for h, r in zip(hists, hres):
+        if "exc" in r:
+            n_viol += 1
+            run.violation("history_exception", f"source map operation sequence raised {r['exc']}", {"history": h, "impl": r})
+        elif "diverged" in r:
+            n_viol += 1
+            d = r["diverged"]
+            prev = [st[0] for st in h["steps"][:d["step"]]]
+            run.violation(f"history_{d['op']}", f"after the operations {prev} on one source map object, {d['op']} does not act on the content the object has now "
+                                                f"(a fresh object with the same entries answers differently)", {"history": h, "impl": r})
     # correspondence with the Lean model
     mism = 0
     lean_ok = prep["driver_ok"]
@@ -253,7 +293,7 @@ def run(run: core.Run) -> int:
         "evaluations": len(cases), "distinct_nontrivial": core.distinct(c for c in cases if c["sm"]["map"] or c["sm"]["macros"]),
         "rule": "random well-typed source maps (0-8 op entries, 0-4 macro entries, return addresses hitting surviving/dropped/absent/zero/out-of-range offsets) plus maps produced by the real compiler on the repo's macro fixtures; injective offset mappings: empty, total, dropping, compaction, non-monotone; non-trivial = at least one entry",
         "samples": cases[len(compiled):len(compiled) + 2] + cases[:1],
-        "generator_stats": stats, "correspondence_mismatches": mism, "oracle_violations": n_viol,
+        "generator_stats": stats, "history_stats": hstats, "correspondence_mismatches": mism, "oracle_violations": n_viol,
     })
     return run.finish("proof", cov, [
         "json.loads(json.dumps(v)) == v on ints/strings/None/lists/str-keyed dicts (stdlib)",
@@ -263,6 +303,13 @@ def run(run: core.Run) -> int:
 
 def replay(run: core.Run, path: str) -> int:
     data = json.load(open(path))
+    if "history" in data["replay"]:
+        from ..impl_sm import run_histories
+        r = run_histories([data["replay"]["history"]])[0]
+        if "exc" in r or "diverged" in r:
+            print("VIOLATION-REPLAY", json.dumps(r)[:600])
+            return 1
+        return 0
     case = data["replay"]["case"]
     from ..impl_sm import run_cases
     r = run_cases([case])[0]
